@@ -166,7 +166,10 @@ def run(ctx: Ctx) -> Result:
         try:
             with vmrun.Env(cfg) as env:
                 F.time = lambda: vmrun.NOW + .73; T.time = F.time
-                amhl = T.setup_amhl(seed, pks, flags, refund) if refund else T.setup_amhl(seed, pks, flags)
+                # parties may be handed over as VerifyKey objects (the refund map stays keyed by the 32 key bytes): same chain
+                from nacl.signing import VerifyKey as _VK
+                pk_args = [_VK(p_) for p_ in pks] if (n + len(seed or b'')) % 3 == 1 else pks
+                amhl = T.setup_amhl(seed, pk_args, flags, refund) if refund else T.setup_amhl(seed, pk_args, flags)
                 key = amhl['key']
                 tw = [amhl[pk][2] for pk in pks]; sc = [amhl[pk][3] for pk in pks]
                 # what setup_amhl reports per hop is consistent with the chain the module derives from the same seed: tweak point i =
